@@ -38,7 +38,7 @@ def _k():
                  ('r32', r32), ('r64', r64), ('E0', E0), ('E1', E1), ('S1', S1), ('S2', S2), ('S8', S8), ('U4', U4), ('U8', U8),
                  ('D', D), ('D8', D8), ('TTU16', TTU16), ('TS2', TS2), ('UO', UO), ('DO', DO), ('U12', U12)]:
         plain(n, t)
-    for n, t in [('u8', u8), ('u16', u16), ('u32', u32), ('u64', u64), ('E1', E1), ('S2', S2), ('S8', S8), ('U4', U4), ('r32', r32), ('SL', SL)]:
+    for n, t in [('u8', u8), ('u16', u16), ('u32', u32), ('u64', u64), ('E1', E1), ('S2', S2), ('S8', S8), ('U4', U4), ('U8', U8), ('r32', r32), ('SL', SL)]:
         K['opt_' + n] = lambda nm, t=t: [Field(nm, t, 'optional')]
     for n, t in [('u8', u8), ('u16', u16), ('u64', u64), ('E0', E0), ('S2', S2), ('U8', U8), ('SE5', SE5)]:
         K['fix_' + n] = lambda nm, t=t: [Field(nm, t, ('fixed', 2))]
@@ -115,6 +115,10 @@ def _curated():
     C.append(Struct('C_blk_opt_first', [Field('n', u32), Field('a', u8, ('ext', 'n')), Field('x', u8, 'optional'), Field('y', u64)]))
     C.append(Struct('C_union12_then', [Field('u', U12), Field('t', u64)]))
     C.append(Struct('C_last_G8', [Field('a', u64), Field('b', u8), Field('g', Struct('G16', [Field('h', u16), Field('g', u8, 'greedy')]))]))
+    # 64-bit counters: count * element size can wrap in size_t arithmetic
+    C.append(Struct('C_ext64_u16', [Field('n', u64), Field('a', u16, ('ext', 'n')), Field('t', u8)]))
+    C.append(Struct('C_ext64_S8', [Field('n', u64), Field('a', S8, ('ext', 'n'))]))
+    C.append(Struct('C_exti64_u32', [Field('n', i64), Field('a', u32, ('ext', 'n')), Field('t', u16)]))
     return C
 
 
